@@ -19,6 +19,7 @@ const FRACTIONS: [u64; 7] = [100_000_000, 900_000_000, 0, 500_000_000, 999_999_9
 pub struct StWorld {
     /// number of block updates so far (selects the sub-second part), None = keep the sub-second part constant
     pub jitter: Option<usize>,
+    pub advances: usize,
     pub app: App,
     pub accts: BTreeMap<String, Addr>,
 }
@@ -65,7 +66,7 @@ impl StWorld {
                 accts.insert(d.clone(), a);
             }
         });
-        StWorld { jitter: if unbond > 0 { Some(0) } else { None }, app, accts }
+        StWorld { jitter: if unbond > 0 { Some(0) } else { None }, advances: 0, app, accts }
     }
 
     fn addr(&self, n: &str) -> Addr {
@@ -89,6 +90,8 @@ impl StWorld {
             }
             _ => None,
         };
+        self.advances += if a == "advance" { 1 } else { 0 };
+        let via_set = self.advances % 2 == 0;
         let app = &mut self.app;
         catch_unwind(AssertUnwindSafe(move || match a.as_str() {
             "delegate" => app.execute(d, StakingMsg::Delegate { validator: v, amount: coin(amt as u128, denom(foreign)) }.into()).is_ok(),
@@ -104,13 +107,24 @@ impl StWorld {
             "advance" => {
                 match split {
                     Some(sp) => sp(app, amt),
-                    None => app.update_block(|b| {
+                    None => {
+                        let mut b = app.block_info();
                         b.time = match frac {
                             Some(f) => cosmwasm_std::Timestamp::from_nanos((b.time.seconds() + amt * UNIT) * 1_000_000_000 + f),
                             None => b.time.plus_seconds(amt * UNIT),
                         };
-                        b.height += 1;
-                    }),
+                        // the two ways of moving the clock are used in turn: update_block with a new height, and
+                        // set_block with the SAME height (an unbonding matures with time, not with height)
+                        if via_set {
+                            app.set_block(b);
+                        } else {
+                            let t = b.time;
+                            app.update_block(|bl| {
+                                bl.time = t;
+                                bl.height += 1;
+                            });
+                        }
+                    }
                 }
                 true
             }
